@@ -517,7 +517,8 @@ func rulesC05(w *World, o *Out) {
 					continue
 				}
 				if call, isCall := canon(pr[0]).(*ssa.Call); isCall {
-					if cal, ok := CalleeOf(call.Common()); ok && cal.Name == "GetLastID" && strings.HasSuffix(cal.Pkg, "util/keeper") {
+					if cal, ok := CalleeOf(call.Common()); ok && strings.HasSuffix(cal.Pkg, "util/keeper") &&
+						(cal.Name == "GetLastID" || (isNewHelper(cal.Static) && strings.Contains(strings.ToLower(cal.Name), "lastid"))) {
 						return true
 					}
 				}
@@ -883,7 +884,8 @@ func rulesC07(w *World, o *Out) {
 					}
 					return false
 				}
-				ok = ok && factOnEveryEdge(s.Instr, admitted)
+				// the edge condition subsumes the syntactic test count (which cannot see tests moved into a predicate helper)
+				ok = factOnEveryEdge(s.Instr, admitted)
 				errs := map[string]bool{}
 				for _, s2 := range CallsIn(g) {
 					if s2.Callee.Pkg == "errors" && s2.Callee.Name == "Is" {
